@@ -124,6 +124,92 @@ theorem H_swap_ne (P B : Nat) (hc : Nat.Coprime B P) (hc1 : Nat.Coprime (B - 1) 
   rw [Int.natAbs_mul, Int.natAbs_natCast] at h6
   exact hab (Int.natCast_dvd.mpr (hc1.symm.dvd_of_dvd_mul_right h6))
 
+/-- replacing one element changes the hash by `(y - x) · B^|post|` modulo P -/
+theorem H_set_cong (P B : Int) (pre post : List Int) (x y : Int) :
+    P ∣ (H P B (pre ++ y :: post) - H P B (pre ++ x :: post)) - (y - x) * B ^ post.length := by
+  unfold H
+  rw [ev_append, ev_append]
+  simp only [ev, List.foldl_cons]
+  generalize List.foldl (roll P B) 0 pre = t
+  obtain ⟨k, hk⟩ := ev_cong P B post (roll P B t y) (roll P B t x)
+  simp only [ev] at hk
+  obtain ⟨a, ha⟩ := roll_cong P B t y
+  obtain ⟨b, hb⟩ := roll_cong P B t x
+  refine ⟨k + (a - b) * B ^ post.length, ?_⟩
+  have e : roll P B t y - roll P B t x = (y - x) + P * (a - b) := by
+    have : roll P B t y - roll P B t x = (roll P B t y - (t * B + y)) - (roll P B t x - (t * B + x)) + (y - x) := by ring
+    rw [this, ha, hb]; ring
+  calc List.foldl (roll P B) (roll P B t y) post - List.foldl (roll P B) (roll P B t x) post - (y - x) * B ^ post.length
+      = (List.foldl (roll P B) (roll P B t y) post - List.foldl (roll P B) (roll P B t x) post
+          - (roll P B t y - roll P B t x) * B ^ post.length)
+        + ((roll P B t y - roll P B t x) - (y - x)) * B ^ post.length := by ring
+    _ = P * k + (P * (a - b)) * B ^ post.length := by rw [hk, e]; ring
+    _ = P * (k + (a - b) * B ^ post.length) := by ring
+
+/-- the hash of two elements is `a·B + b` modulo P -/
+theorem H_pair_cong (P B a b : Int) : P ∣ H P B [a, b] - (a * B + b) := by
+  unfold H ev
+  simp only [List.foldl_cons, List.foldl_nil]
+  obtain ⟨r1, h1⟩ := roll_cong P B 0 a
+  obtain ⟨r2, h2⟩ := roll_cong P B (roll P B 0 a) b
+  refine ⟨r2 + r1 * B, ?_⟩
+  have e1 : roll P B 0 a = a + P * r1 := by
+    have : roll P B 0 a = (roll P B 0 a - (0 * B + a)) + a := by ring
+    rw [this, h1]; ring
+  calc roll P B (roll P B 0 a) b - (a * B + b)
+      = (roll P B (roll P B 0 a) b - (roll P B 0 a * B + b)) + (roll P B 0 a - a) * B := by ring
+    _ = P * r2 + (P * r1) * B := by rw [h2, e1]; ring
+    _ = P * (r2 + r1 * B) := by ring
+
+/-- **exchanging two cells on an anti-diagonal of a two-column table changes its fingerprint** when the table combines its
+    columns with a base `BT` such that `BT - B` is prime to P (with `BT = B` the two cells carry the same weight and the
+    exchange goes unnoticed: the defect repaired in /repo) -/
+theorem Htab_antidiag_ne (P B BT : Nat) (hc : Nat.Coprime B P) (hd : Nat.Coprime (BT - B) P) (hle : B ≤ BT)
+    (pa sa pb sb : List Int) (x y : Int) (hlen : sb.length = sa.length + 1) (hxy : ¬ (P : Int) ∣ y - x) :
+    Htab P B BT [pa ++ y :: sa, pb ++ x :: sb] ≠ Htab P B BT [pa ++ x :: sa, pb ++ y :: sb] := by
+  intro heq
+  unfold Htab at heq
+  simp only [List.map_cons, List.map_nil] at heq
+  obtain ⟨k1, h1⟩ := H_pair_cong P BT (H P B (pa ++ y :: sa)) (H P B (pb ++ x :: sb))
+  obtain ⟨k2, h2⟩ := H_pair_cong P BT (H P B (pa ++ x :: sa)) (H P B (pb ++ y :: sb))
+  obtain ⟨ka, ha⟩ := H_set_cong P B pa sa x y
+  obtain ⟨kb, hb⟩ := H_set_cong P B pb sb x y
+  rw [heq] at h1
+  -- (fa' - fa)·BT + (fb' - fb) ≡ 0, i.e. (y - x)·B^|sa|·(BT - B) ≡ 0
+  have hdiv : (P : Int) ∣ (y - x) * ((BT : Int) - B) * (B : Int) ^ sa.length := by
+    refine ⟨k2 - k1 - ka * BT + kb, ?_⟩
+    have e1 : (H (P : Int) B (pa ++ y :: sa) - H P B (pa ++ x :: sa)) * BT
+        - (H P B (pb ++ y :: sb) - H P B (pb ++ x :: sb)) = P * (k2 - k1) := by
+      have : (H (P : Int) B (pa ++ y :: sa) - H P B (pa ++ x :: sa)) * BT
+          - (H P B (pb ++ y :: sb) - H P B (pb ++ x :: sb))
+          = (H P BT [H P B (pa ++ x :: sa), H P B (pb ++ y :: sb)]
+              - (H P B (pa ++ x :: sa) * BT + H P B (pb ++ y :: sb)))
+            - (H P BT [H P B (pa ++ x :: sa), H P B (pb ++ y :: sb)]
+              - (H P B (pa ++ y :: sa) * BT + H P B (pb ++ x :: sb))) := by ring
+      rw [this, h2, h1]; ring
+    have ea : H (P : Int) B (pa ++ y :: sa) - H P B (pa ++ x :: sa) = (y - x) * (B : Int) ^ sa.length + P * ka := by
+      have : H (P : Int) B (pa ++ y :: sa) - H P B (pa ++ x :: sa)
+          = (H P B (pa ++ y :: sa) - H P B (pa ++ x :: sa) - (y - x) * (B : Int) ^ sa.length)
+            + (y - x) * (B : Int) ^ sa.length := by ring
+      rw [this, ha]; ring
+    have eb : H (P : Int) B (pb ++ y :: sb) - H P B (pb ++ x :: sb) = (y - x) * (B : Int) ^ sb.length + P * kb := by
+      have : H (P : Int) B (pb ++ y :: sb) - H P B (pb ++ x :: sb)
+          = (H P B (pb ++ y :: sb) - H P B (pb ++ x :: sb) - (y - x) * (B : Int) ^ sb.length)
+            + (y - x) * (B : Int) ^ sb.length := by ring
+      rw [this, hb]; ring
+    rw [ea, eb, hlen, pow_succ] at e1
+    calc (y - x) * ((BT : Int) - B) * (B : Int) ^ sa.length
+        = (((y - x) * (B : Int) ^ sa.length + P * ka) * BT - ((y - x) * ((B : Int) ^ sa.length * B) + P * kb))
+          - P * ka * BT + P * kb := by ring
+      _ = P * (k2 - k1) - P * ka * BT + P * kb := by rw [e1]
+      _ = P * (k2 - k1 - ka * BT + kb) := by ring
+  have h5 := dvd_of_dvd_mul_pow P B hc _ _ hdiv
+  have hB1 : ((BT : Int) - B) = ((BT - B : Nat) : Int) := by omega
+  rw [hB1] at h5
+  have h6 : P ∣ ((y - x) * ((BT - B : Nat) : Int)).natAbs := Int.natCast_dvd.mp h5
+  rw [Int.natAbs_mul, Int.natAbs_natCast] at h6
+  exact hxy (Int.natCast_dvd.mpr (hd.symm.dvd_of_dvd_mul_right h6))
+
 theorem roll_range (P B t h : Int) (hP : 0 < P) : 0 ≤ roll P B t h ∧ roll P B t h < P := by
   unfold roll
   exact ⟨Int.emod_nonneg _ (by omega), Int.emod_lt_of_pos _ hP⟩
